@@ -2,6 +2,45 @@
 open Bbm_model
 open Bbm_util
 
+let string_of_sg_result = function
+  | SgrHalt -> "halt"
+  | SgrBlank -> "blank"
+  | SgrRepeat -> "repeat"
+  | SgrSpinout -> "spinout"
+  | SgrDepthLimit -> "depth_limit"
+  | SgrSegmentLimit -> "segment_limit"
+  | SgrRefuted step -> "refuted:" ^ string_of_n step
+
+let params_of_field (s : string) : n * n =
+  match split ',' s with
+  | [a; b] -> (n_of_string a, n_of_string b)
+  | _ -> failwith "bad params"
+
+(* id|seg|<goal>|<prog>|<S>,<C>|<segs> *)
+let cmd_seg goal prog params segs =
+  let p = comp_of_text prog in
+  let pr = params_of_field params in
+  let sg = n_of_string segs in
+  let f = match goal with
+    | "halt" -> sg_seg_cant_halt
+    | "blank" -> sg_seg_cant_blank
+    | "spin" -> sg_seg_cant_spin_out
+    | _ -> failwith "bad goal" in
+  string_of_sg_result (unwrap (f p pr sg))
+
+(* id|segpy|<goal>|<prog>|<segs> *)
+let cmd_segpy goal prog segs =
+  let p = comp_of_text prog in
+  let sg = n_of_string segs in
+  let f = match goal with
+    | "halt" -> sg_py_segment_cant_halt
+    | "blank" -> sg_py_segment_cant_blank
+    | "spin" -> sg_py_segment_cant_spin_out
+    | _ -> failwith "bad goal" in
+  string_of_sg_result (unwrap (f p sg))
+
 let dispatch (fields : string list) : string option =
   match fields with
+  | ["seg"; goal; prog; params; segs] -> Some (cmd_seg goal prog params segs)
+  | ["segpy"; goal; prog; segs] -> Some (cmd_segpy goal prog segs)
   | _ -> None
